@@ -116,16 +116,17 @@ PARENTS = {
     ],
     # one condition spelled three ways (control by name at dose 0, a drug at dose 0, the control name at a positive dose): the ids agree
     "G4": [
-        ("s0", "p0", (("a", 1.0), (CTL, 0.0)), 0.21, True),
-        ("s0", "p1", (("a", 1.0), ("b", 0.0)), 0.31, False),
-        ("s1", "p0", (("a", 1.0), ("b", 0.0)), 0.41, True),
-        ("s0", "p1", (("a", 1.0), (CTL, 1.0)), 0.51, False),
+        ("s0", "p0", (("a", 0.037), (CTL, 0.0)), 0.21, True),
+        ("s0", "p1", (("a", 0.037), ("b", 0.0)), 0.31, False),
+        ("s1", "p0", (("a", 0.037), ("b", 0.0)), 0.41, True),
+        ("s0", "p1", (("a", 0.037), (CTL, 1.0)), 0.51, False),
     ],
     # the repeats of one sample's condition are separated by another sample's well with the same treatment
+    # (doses that no binary32 number equals: 0.1, 0.037 - a view reports the parent's float64 values)
     "H3": [
-        ("s0", "p0", (("a", 1.0),), 0.2, False),
-        ("s1", "p0", (("a", 1.0),), 0.3, False),
-        ("s0", "p1", (("a", 1.0),), 0.4, True),
+        ("s0", "p0", (("a", 0.1),), 0.2, False),
+        ("s1", "p0", (("a", 0.1),), 0.3, False),
+        ("s0", "p1", (("a", 0.1),), 0.4, True),
     ],
     "A5": [
         ("s0", "pB", (("a", 1.0), ("b", 1.0)), 0.11, True),
